@@ -27,7 +27,8 @@ use crate::{
     IMPLEMENTATION_CLASS_UID, IMPLEMENTATION_VERSION_NAME,
     pdu::{
         AbortRQServiceProviderReason, AbortRQSource, AssociationAC, AssociationRJ,
-        AssociationRJResult, AssociationRJServiceUserReason, AssociationRJSource, AssociationRQ,
+        AssociationRJResult, AssociationRJServiceProviderASCEReason,
+        AssociationRJServiceUserReason, AssociationRJSource, AssociationRQ,
         DEFAULT_MAX_PDU, PDU_HEADER_SIZE, Pdu, PresentationContextResult,
         PresentationContextResultReason, UserIdentity, UserVariableItem, write_pdu,
     },
@@ -810,8 +811,8 @@ where
                 if protocol_version != self.protocol_version {
                     let association_rj = AssociationRJ {
                         result: AssociationRJResult::Permanent,
-                        source: AssociationRJSource::ServiceUser(
-                            AssociationRJServiceUserReason::NoReasonGiven,
+                        source: AssociationRJSource::ServiceProviderASCE(
+                            AssociationRJServiceProviderASCEReason::ProtocolVersionNotSupported,
                         ),
                     };
                     let pdu = Pdu::AssociationRJ(association_rj.clone());
